@@ -246,7 +246,7 @@ func corrIAT(args []string) {
 	n := fs.Int("n", 500, "number of random whole-file recipes")
 	nmix := fs.Int("nmix", 120, "number of files mixing ADV with other batches")
 	nbatch := fs.Int("nbatch", 900, "number of single-batch Create cases")
-	corpus := fs.String("corpus", "", "corpus directory (iat-*.json)")
+	corpus := fs.String("corpus", "", "corpus directory (p7-*.json)")
 	fs.Parse(args)
 	cases := hx.Create(filepath.Join(*out, "cases.txt"))
 	impl := hx.Create(filepath.Join(*out, "impl.txt"))
@@ -327,7 +327,7 @@ func corrIAT(args []string) {
 		count++
 	}
 	if *corpus != "" {
-		paths, _ := filepath.Glob(filepath.Join(*corpus, "iat-*.json"))
+		paths, _ := filepath.Glob(filepath.Join(*corpus, "p7-*.json"))
 		for _, p := range paths {
 			raw, err := os.ReadFile(p)
 			if err != nil {
